@@ -77,6 +77,10 @@ pub fn generate(g: &mut G, _index: u64) -> Scenario {
     if entry.builder() && g.chance(1, 3) {
         spec.timeout = Some(g.range(1, 5));
     }
+    if g.chance(1, 6) {
+        // a timer of its own must not keep a stream-attached actor from ending either
+        spec.on_start.push(Work::Timer(TimerSpec { id: 0, kind: g.pick(&[TimerKind::Interval, TimerKind::IntervalWith, TimerKind::DelayedSend]), period: g.range(4, 25), handler_sleep: 0 }));
+    }
     let cause = if saturated {
         g.pick(&[Cause::Stop, Cause::Halt, Cause::CtxStop, Cause::LastDrop, Cause::TryStop])
     } else {
